@@ -52,6 +52,16 @@ fn programs() -> Vec<Prog> {
             next: vec![3, 2, 3, 4, 4],
             step_out: vec![None, Some(3), Some(3), None, None],
         },
+        // the same, laid out in descending address order: the test in a segment at $c000, the subroutine behind it in
+        // the source but at $2000
+        Prog {
+            name: "subroutine-in-a-lower-segment",
+            source: ".define segment { name = \"hi\" start = $c000 }\n.define segment { name = \"lo\" start = $2000 }\n.segment \"hi\" {\n.test \"t\" {\njsr s\ninx\nbrk\n}\n}\n.segment \"lo\" {\ns:\niny\nrts\n}\n",
+            lines: vec![5, 12, 13, 6, 7],
+            x: vec![0, 0, 0, 0, 1],
+            next: vec![3, 2, 3, 4, 4],
+            step_out: vec![None, Some(3), Some(3), None, None],
+        },
     ]
 }
 
